@@ -374,7 +374,7 @@ with pitem (f : nat) (ts : list token) {struct f} : option (expr * list token) :
       end
   end.
 
-Definition fuel_of (ts : list token) : nat := 4 * List.length ts + 8.
+Definition fuel_of (ts : list token) : nat := 12 * List.length ts + 12.
 Definition parse (ts : list token) : option expr :=
   match pexpr (fuel_of ts) 0 ts with
   | Some (e, []) => Some e
@@ -423,7 +423,7 @@ Definition nonempty {A} (l : list A) : bool := match l with [] => false | _ => t
 Fixpoint ok (R : rules) (m : nat) (p : pos) (e : expr) {struct e} : bool :=
   let item (x : expr) : bool :=
     match x with
-    | Named _ v => match v with Named _ _ | Rng _ _ _ => false | _ => ok R 0 PTop v end
+    | Named _ v => ok R 0 PTop v
     | Rng lo hi st =>
         ok R 0 PTop lo && ok R 0 PTop hi && ok R 0 PTop st &&
         (if unit_step st then expr_eqb st one_lit else true)
@@ -450,13 +450,22 @@ Fixpoint ok (R : rules) (m : nat) (p : pos) (e : expr) {struct e} : bool :=
       ok R (rbp o) (PBinR o) r
   end.
 Definition safe (R : rules) (e : expr) : bool := ok R 0 PTop e.
+(* the condition `ok` puts on an element of an index / argument list *)
+Definition item_ok (R : rules) (x : expr) : bool :=
+  match x with
+  | Named _ v => ok R 0 PTop v
+  | Rng lo hi st =>
+      ok R 0 PTop lo && ok R 0 PTop hi && ok R 0 PTop st &&
+      (if unit_step st then expr_eqb st one_lit else true)
+  | _ => ok R 0 PTop x
+  end.
 
 (* well-formed trees: the domain of the property (what the PSyIR constructors accept and the
    Fortran writer does not refuse), with literals in the form the reader gives back *)
 Fixpoint wf (e : expr) {struct e} : bool :=
   let item (x : expr) : bool :=
     match x with
-    | Named _ v => match v with Named _ _ | Rng _ _ _ => false | _ => wf v end
+    | Named _ v => wf v
     | Rng lo hi st => wf lo && wf hi && wf st && (if unit_step st then expr_eqb st one_lit else true)
     | _ => wf x
     end in
@@ -473,6 +482,12 @@ Fixpoint wf (e : expr) {struct e} : bool :=
   end.
 
 (* the three shapes for which the unchanged writer leaves out brackets that are needed *)
+Definition item_wf (x : expr) : bool :=
+  match x with
+  | Named _ v => wf v
+  | Rng lo hi st => wf lo && wf hi && wf st && (if unit_step st then expr_eqb st one_lit else true)
+  | _ => wf x
+  end.
 Definition rel_level (o : binop) : bool := lvl o =? 4.
 Fixpoint shape_ok (R : rules) (e : expr) {struct e} : bool :=
   match e with
@@ -498,17 +513,18 @@ Fixpoint shape_ok (R : rules) (e : expr) {struct e} : bool :=
   end.
 
 (* ------------------------------------------------------------------ correspondence cases *)
-(* (tree, text written by FortranWriter, tree re-read by FortranReader or None when it raises,
-    whether PSyclone's == says re-read = original) *)
-Definition case := (expr * string * option expr * bool)%type.
+(* (tree, text written by FortranWriter, tree re-read by FortranReader, whether re-read = tree) *)
+Inductive rr := RSame | RNone | RTree (t : expr).   (* RNone: the reader raised / built a CodeBlock *)
+Definition case := (expr * string * rr * bool)%type.
 Definition model_rt (R : rules) (e : expr) : bool :=
   match parse (write R e) with Some t => expr_eqb t e | None => false end.
 Definition agrees (R : rules) (c : case) : bool :=
   let '(e, text, reread, impl_ok) := c in
+  let back := match reread with RSame => Some e | RNone => None | RTree t => Some t end in
   String.eqb (write_text R e) text &&
   (* when the text is in the standard grammar, the reader must see what the grammar says *)
   match parse (write R e) with
-  | Some t => oexpr_eqb (Some t) reread
+  | Some t => oexpr_eqb (Some t) back
   | None => true
   end &&
   Bool.eqb (model_rt R e) impl_ok &&
